@@ -2724,6 +2724,34 @@ fn accessor_checks(r: &mut SplitMix64, c: &mut Chk, m: &mut FastOps, state: &[bo
             t.push(p);
             t
         }), &occ);
+        // sub-ranges that begin on an occupied slot (in particular on the LAST one) or anywhere else
+        let mut starts = vec![r.below(len as u64) as usize];
+        if let Some(last) = occ.last() {
+            starts.push(*last);
+            starts.push(*r.pick(&occ));
+        }
+        starts.sort_unstable();
+        starts.dedup();
+        for pstart in starts {
+            let e: Vec<usize> = occ.iter().cloned().filter(|p| *p >= pstart).collect();
+            let it = m.iterate_ops(pstart, len, vec![], |_, _, p, mut t: Vec<usize>| {
+                t.push(p);
+                t
+            });
+            c.eq(&format!("C11 iterate_ops({}, {})", pstart, len), &it, &e);
+            let tr: Result<Vec<usize>, ()> = m.try_iterate_ops(pstart, len, vec![], |_, _, p, mut t: Vec<usize>| {
+                t.push(p);
+                Ok(t)
+            });
+            c.eq(&format!("C11 try_iterate_ops({}, {})", pstart, len), &tr, &Ok(e.clone()));
+            let mu = pooled(c, "mutate_ops on a sub-range (no change)", m, |mm| {
+                mm.mutate_ops(pstart, len, Vec::<usize>::new(), |_, _, p, mut t| {
+                    t.push(p);
+                    (None, t)
+                })
+            });
+            c.eq(&format!("C11 mutate_ops({}, {})", pstart, len), &mu, &Some(e));
+        }
         c.ck(js(m) == j0, || "C11 visiting sweeps changed the container".into());
     }
     // rebuild from the operator list: no per-bond counters, same answers
@@ -2950,6 +2978,12 @@ fn mode_c12(r: &mut SplitMix64, n: usize) {
         let mut c = Chk::new();
         let before = scan(g.get_manager_ref());
         hits(&["QmcIsingGraph::set_cutoff", "SwapManagers::set_op_cutoff", "SwapManagers::get_op_cutoff", "QmcIsingGraph::get_cutoff"]);
+        if r.coin() {
+            // storage grown by hand through the manager handle: the sampler's cutoff is still what the setter is given
+            let spare = target + 1 + r.below(8) as usize;
+            g.get_manager_mut().set_cutoff(spare);
+            c.eq("C12 growing the container by hand leaves the reported cutoff", &g.get_cutoff(), &cut0);
+        }
         let mut twin = g.clone();
         if by_trait {
             SwapManagers::set_op_cutoff(&mut g, target);
